@@ -159,7 +159,7 @@ type muxOutcome struct {
 	subOf    map[int]int // trace subscription id -> schedule index
 	deadlock bool
 	dump     string
-	panicked string
+	panics   []panicRec
 }
 
 func runMux(s muxSched, watchdog time.Duration) (out muxOutcome) {
@@ -169,19 +169,12 @@ func runMux(s muxSched, watchdog time.Duration) (out muxOutcome) {
 	tr.RegisterType(ev1(0), 1)
 	tr.RegisterType(ev2(0), 2)
 	rng := vh.NewRNG(s.Seed ^ 0x5eed)
-	var rmu, smu, pmu sync.Mutex
+	var rmu, smu sync.Mutex
 	out.subOf = map[int]int{}
 	var wgWork, wgRead sync.WaitGroup
-	guard := func(f func()) {
-		defer func() {
-			if r := recover(); r != nil {
-				pmu.Lock()
-				out.panicked = fmt.Sprint(r)
-				pmu.Unlock()
-			}
-		}()
-		f()
-	}
+	pl := &panicLog{}
+	guard := pl.guard
+	defer func() { out.panics = pl.list() }()
 	gates := map[int]chan struct{}{}
 	for _, ms := range s.Subs {
 		if ms.Reader == "gated" {
@@ -195,7 +188,8 @@ func runMux(s muxSched, watchdog time.Duration) (out muxOutcome) {
 		for _, t := range ms.Types {
 			types = append(types, mkEvent(t, 0))
 		}
-		sub := mux.Subscribe(types...)
+		var sub *event.TypeMuxSubscription
+		pl.do("TypeMux.Subscribe", func() { sub = mux.Subscribe(types...) })
 		id := tr.NameSub(sub)
 		smu.Lock()
 		out.subOf[id] = ms.Idx
@@ -206,7 +200,7 @@ func runMux(s muxSched, watchdog time.Duration) (out muxOutcome) {
 	}
 	unsubscribe := func(sub *event.TypeMuxSubscription, id int) {
 		tr.Record("munsub_call", id, 0)
-		sub.Unsubscribe()
+		pl.do("TypeMuxSubscription.Unsubscribe", func() { sub.Unsubscribe() })
 		tr.Record("munsub_ret", id, 0)
 	}
 	reader := func(ms muxSub, sub *event.TypeMuxSubscription, id int) {
@@ -244,13 +238,14 @@ func runMux(s muxSched, watchdog time.Duration) (out muxOutcome) {
 				defer wgWork.Done()
 				pause(rng, &rmu, ms.Delay*3)
 				unsubscribe(sub, id)
-				sub.Unsubscribe() // idempotent
+				pl.do("TypeMuxSubscription.Unsubscribe", func() { sub.Unsubscribe() }) // idempotent
 			})
 		}
 	}
 	post := func(p muxPost) {
 		tr.Record("mpost_call", p.ID, p.Typ)
-		err := mux.Post(mkEvent(p.Typ, p.ID))
+		var err error
+		pl.do("TypeMux.Post", func() { err = mux.Post(mkEvent(p.Typ, p.ID)) })
 		e := 0
 		if err != nil {
 			e = 1
@@ -259,12 +254,13 @@ func runMux(s muxSched, watchdog time.Duration) (out muxOutcome) {
 	}
 	stop := func() {
 		tr.Record("mstop_call", 0, 0)
-		mux.Stop()
+		pl.do("TypeMux.Stop", func() { mux.Stop() })
 		tr.Record("mstop_ret", 0, 0)
 	}
 	for _, ms := range s.Subs {
 		if !ms.Late {
-			start(ms)
+			ms := ms
+			guard(func() { start(ms) })
 		}
 	}
 	count := func(point string) int {
@@ -334,6 +330,10 @@ func runMux(s muxSched, watchdog time.Duration) (out muxOutcome) {
 			case <-tick.C:
 				// no verdict by wall-clock alone: the watchdog must itself have been scheduled `stallTicks` times
 				// (ticks are dropped when the process is starved) without seeing a new trace record
+				if len(pl.list()) > 0 { // a call into aqua/event panicked: the feed may be wedged, abandon the schedule now
+					out.events = tr.Snapshot()
+					return false
+				}
 				n := len(tr.Snapshot())
 				if n != lastN {
 					lastN, last, ticks = n, time.Now(), 0
@@ -350,10 +350,12 @@ func runMux(s muxSched, watchdog time.Duration) (out muxOutcome) {
 	if !wait(&wgWork) {
 		return out
 	}
-	if !s.Directed && !s.StopMid {
-		stop()
-	}
-	post(muxPost{99, 0}) // Post after Stop must fail
+	guard(func() {
+		if !s.Directed && !s.StopMid {
+			stop()
+		}
+		post(muxPost{99, 0}) // Post after Stop must fail
+	})
 	if !wait(&wgRead) {
 		return out
 	}
@@ -547,16 +549,17 @@ func muxPart(c *vh.Ctx, m *vh.Model, replay *muxSched) {
 			c.Count("mux/skipped-after-deadlocks")
 			continue
 		}
+		if len(r.panics) > 0 {
+			c.Eval(s.class(), "")
+			c.Violate("feed-panic/"+r.panics[0].Op, "aqua/event panicked in "+r.panics[0].Op+": "+r.panics[0].Val, map[string]interface{}{"mux_schedule": s, "panics": r.panics, "trace": evText(r.events)})
+			continue
+		}
 		if r.deadlock {
 			c.Eval(s.class(), "")
 			c.Violate("mux-deadlock", "TypeMux: no progress for "+watchdog.String()+" with every subscriber reading", map[string]interface{}{"mux_schedule": s, "trace": evText(r.events), "goroutines": r.dump})
 			continue
 		}
-		if r.panicked != "" {
-			c.Eval(s.class(), "")
-			c.Violate("mux-panic", "TypeMux panicked: "+r.panicked, map[string]interface{}{"mux_schedule": s, "trace": evText(r.events)})
-			continue
-		}
+
 		ls, err := muxTranslate(r.events)
 		if err != "" {
 			c.Fatal("mux translate: %s", err)
